@@ -98,8 +98,9 @@ yaml.add_representer(tuple, tuple_representer)
 
 # represent numpy types as things that will print more cleanly
 def complex_representer(dumper, data):
-    return dumper.represent_scalar('!complex', repr(data.tolist()))
+    return dumper.represent_scalar('!complex', repr(complex(data)))
 yaml.add_representer(np.complex128, complex_representer)
+yaml.add_representer(complex, complex_representer)
 def complex_constructor(loader, node):
     return complex(node.value)
 for loader in YAMLLOADERS:
